@@ -6,6 +6,16 @@ props = [json.loads(l) for l in open(os.path.join(V, "properties.jsonl"))]
 ids = [p["id"] for p in props]
 
 CLAIMS = {
+ "C18": dict(
+   technique="Lean 4 theorems over hand-written executable models of parse_git_cli_args/to_invocation_vec/parse_alias_tokens/resolve_alias_impl with option tables extracted from the Rust source on every run, a reference model of git's grammar/split_cmdline/alias loop, in-process correspondence + independent oracles, and an end-to-end recording git stand-in",
+   text="Machine-checked proof, for every argument vector, that the reconstruction is the identity when no meta option precedes the command; that git-ai's command split equals git's (or is 'no command') whenever git finds a command, so an option value is never the command; that the alias tokenizer simulates git's split_cmdline (exact relation), resolution terminates and returns None exactly for cycles/shell/unterminated quotes; and that, for clean alias tables, the expanded argv equals what git's own alias loop executes. Help/version normalisation proved equal to git's in-place conversion on a stated region, with decide-witnesses outside it.",
+   note="Partial theorems: documented_normalisation (region tailOk), alias_agrees (AliasClean, no shadowing). git is a reference model (validated against git 2.39.5, not proved). 7 known findings (4 parser rewrite families pinned by existing tests, alias shadowing of git commands, trailing backslash, edge-whitespace empties). 3 defects fixed in /repo (9bf959c6, ec0f40f8, 6b220761).",
+   ref="DESIGN.md §8 C18"),
+ "C19": dict(
+   technique="Lean 4 proof over an executable model of stats.rs (overlap via core's binary search, accepted, stats_from_authorship_log, numstat parse + unescape_git_path, stats_for_commit_stats glue); in-process correspondence and oracles on the real functions; end-to-end on every commit of generated histories: git-ai stats --json vs git numstat vs raw note vs model",
+   text="Proof: all identities (human + accepted = added; ai_additions = accepted + mixed ≤ added; per-tool breakdown sums to the totals; numstat totals minus ignored files) proved for every note / added-line map / numstat listing under explicit no-overflow guards; accepted = |added ∩ listed| proved under C05's disjointness with a negation witness; root and merge commits covered; the model is tied to the code by in-process correspondence and by end-to-end comparison on every commit of generated histories.",
+   note="The ignore matcher is a predicate parameter; git's numstat/diff and quote_c_style are kernel models checked against git 2.39; time_waiting_for_ai not modelled; the binary-search model is validated on sorted input only. Fixed in /repo: per-tool mixed/ai_additions uncapped (f619ec69).",
+   ref="DESIGN.md §8 C19"),
  "C16": dict(
    technique="Lean 4 proof over an executable byte-level model of the tracker core (transform, merge, catalog, fill, line projection, line↔char conversion) with the diff and move detector as contract-checked parameters; in-process differential correspondence against the real code through verif-hooks; property oracles on the real outputs",
    text="Proof of no_panic, in_bounds, on_boundaries, unchanged_keeps_author (multiset before merge, set after), new_text_is_reporters, line_char_roundtrip and identity (exact normal-form characterisation) for all inputs under the stated segment/move contracts; identity_keeps_lines and whitespace_reformat_keeps_lines are partial, with negation witnesses. The model reproduces update_attributions exactly on the real segments and moves of every generated case (text pairs: empty, one line, no final newline, CRLF, multibyte/combining, long lines, repeated lines, moved blocks; malformed prior attribution sets).",
